@@ -135,7 +135,7 @@ func checkElementBodyKinds(p *Program, r *Report, rule string, pl *Policy) {
 		return
 	}
 	tables := []*ssa.Global{table}
-	tl, err := p.VarLit("template", tables[0].Name())
+	tl, err := p.VarLit("template", cname(tables[0]))
 	if err != nil {
 		r.Undec(rule, "template."+tables[0].Name(), "", err.Error())
 		return
